@@ -29,3 +29,18 @@ def queries():
 if _t0 is not None:
     META["assumptions"] = list(META.get("assumptions", [])) + list(getattr(_t0, "ASSUMPTIONS", []))
     META["mutants_tried"] = list(META.get("mutants_tried", [])) + list(getattr(_t0, "MUTANTS", []))
+
+
+# ---- cross-included by the main session: chunk independence of the key / certificate decoders also needs the push
+# entry points to resume the coroutine on EVERY call while no error is recorded (a push that is silently dropped makes
+# the verdict depend on where the caller cut the input - seeded change C07c); decided by the C05 pushgate-* queries
+# (real push function over a recording stub of the interpreter: resumed exactly when err == 0).
+_c07_queries = queries
+def queries():
+    qs = _c07_queries()
+    try:
+        import C05
+        qs = qs + [q for q in C05._c05_queries() if q.name.startswith("pushgate-")]
+    except Exception:
+        pass
+    return qs
